@@ -11,6 +11,10 @@ ops (all numbers decimal, strings/payloads hex, `-` = empty):
 * `getvar bufsz nul idx dj junk hexdata` → `ret size idx hexdst`
 * `rtstr fill max bufsz dj junk hexstr` (AddStr fill 0xff; GetStr nul 0xff) · `rtais fill max bufsz dj junk hexstr`
   (GetStr nul '@') → `ret idx hexdst` · `rtvar fill max uni chars bufsz dj junk hexstr` → `ret size idx hexdst`
+* `addvar2 fill junk hexstr` (AddVarStr(str)) → as `addvar`; `rtvar2 fill bufsz dj junk hexstr` → as `rtvar`
+* `addbuf fill junk hexbuf` → `len hex223`; `getbuf length extra idx dj junk hexdata` (destination of length+extra bytes)
+  → `ret idx hexdst`; `getbuf0 length idx junk hexdata` (null buffer) → `ret idx`;
+  `rtbuf fill dj junk hexA hexB` (AddBuf A, AddBuf B, GetBuf |A|, GetBuf |B|) → `len r1 r2 idx hexX hexY`
 `junk`: Data[i] = (junk + 31*i) % 256 before the call (hexdata overwrites [0,DataLen)); `dj`: initial
 value of every destination byte. -/
 namespace Driver.Text
@@ -88,6 +92,42 @@ def run (w : List String) : Option String :=
     some (showGetVar n (do
       let m ← addVarStr ⟨junkData junk, fill⟩ (.at s) max (uni != 0) (chars != 0)
       getVarStr m n (fun _ => dj) 0xff fill))
+  | ["addvar2", fill, junk, hs] => do
+    let [fill, junk] ← nats? [fill, junk] | none
+    let s ← hexBytes? hs
+    some (showAdd (addVarStr2 ⟨junkData junk, fill⟩ (.at s)))
+  | ["rtvar2", fill, n, dj, junk, hs] => do
+    let [fill, n, dj, junk] ← nats? [fill, n, dj, junk] | none
+    let s ← hexBytes? hs
+    some (showGetVar n (do
+      let m ← addVarStr2 ⟨junkData junk, fill⟩ (.at s)
+      getVarStr3 m n (fun _ => dj) fill))
+  | ["addbuf", fill, junk, hb] => do
+    let [fill, junk] ← nats? [fill, junk] | none
+    let b ← hexBytes? hb
+    some (showAdd (addBuf ⟨junkData junk, fill⟩ b))
+  | ["getbuf", length, extra, idx, dj, junk, hd] => do
+    let [length, extra, idx, dj, junk] ← nats? [length, extra, idx, dj, junk] | none
+    let bytes ← hexBytes? hd
+    some (showGet (length + extra) (getBuf (msgOf junk bytes) (length + extra) (fun _ => dj) length idx))
+  | ["getbuf0", length, idx, junk, hd] => do
+    let [length, idx, junk] ← nats? [length, idx, junk] | none
+    let bytes ← hexBytes? hd
+    let (r, i) := getBufNull (msgOf junk bytes) length idx
+    some s!"{boolStr r} {i}"
+  | ["rtbuf", fill, dj, junk, ha, hb] => do
+    let [fill, dj, junk] ← nats? [fill, dj, junk] | none
+    let a ← hexBytes? ha
+    let b ← hexBytes? hb
+    some (match (do
+        let m ← addBuf ⟨junkData junk, fill⟩ a
+        let m ← addBuf m b
+        let (r1, i1, x) ← getBuf m a.length (fun _ => dj) a.length fill
+        let (r2, i2, y) ← getBuf m b.length (fun _ => dj) b.length i1
+        pure (m.len, r1, r2, i2, x, y) : M (Nat × Bool × Bool × Nat × D × D)) with
+      | .ok (len, r1, r2, i2, x, y) =>
+        s!"{len} {boolStr r1} {boolStr r2} {i2} {dump x a.length} {dump y b.length}"
+      | .error f => faultStr f)
   | _ => none
 
 def step (_ : Unit) (w : List String) : Unit × String :=
